@@ -327,6 +327,11 @@ def r12_6(ctx, rc):
     apply_rules(ctx, rc)
 
 
+def r12_7(ctx, rc):
+    from .c09 import r9_6
+    r9_6(ctx, rc)
+
+
 RULES = [
     ('R12.1', 'what clean can touch', r12_1),
     ('R12.2', 'nothing before validation, nothing without a cache file',
@@ -338,4 +343,5 @@ RULES = [
      r12_4b),
     ('R12.5', 'clean/commit/rollback agree on the removal discipline', r12_5),
     ('R12.6', 'directory bookkeeping is seeded and re-registered', r12_6),
+    ('R12.7', 'a concurrently created directory keeps an owner', r12_7),
 ]
